@@ -14,7 +14,7 @@ for name in args:
     pid, x = name.split("-")
     src = f"/tmp/seedout2-{pid}/{x}"
     out = f"{V}/seeded/{name}"
-    if os.path.exists(src + "/patch.diff"):
+    if os.path.exists(src + "/patch.diff") and not os.path.exists(out + "/patch.diff"):
         os.makedirs(out, exist_ok=True)
         for f in os.listdir(src):
             if os.path.isfile(os.path.join(src, f)):
